@@ -16,6 +16,7 @@
 -/
 import Gzx.Proofs.BitSource
 import Gzx.Proofs.OneDPost
+import Gzx.Proofs.TotalQR
 namespace Gzx.Properties.C06
 open Gzx Gzx.BitSource Gzx.OneDPost
 
@@ -271,5 +272,32 @@ theorem code93_post_total (s : List Nat) (h : ∀ c ∈ s, c ∈ c93Alphabet) :
         · rw [he]; simp
 
 example : c93Post [97] = .error .notFound := by decide
+
+/-! ## QR DecodedBitStreamParser (model `Gzx.QRDec.parse`, tied to the code by the `c01 parse` and
+     `c06 qrparse` correspondence lines) -/
+
+section QRParse
+open Gzx.QRDec Gzx.ECI Gzx.Proofs.TotalQR
+
+/-- C06 for `DecodedBitStreamParser_Decode`, every mode (numeric, alphanumeric, byte, Kanji, Hanzi, ECI,
+    FNC1, structured append, terminator, unknown mode nibbles), for EVERY byte string (truncated
+    anywhere), every version number (also outside 1..40), every charset hint and every ECI registry:
+    a parse result or FormatException — never a panic, never an exhausted loop budget. -/
+theorem qr_parse_total (reg : Registry) (bytes : List Nat) (ver : Nat) (hint : Hint) :
+    (∃ p, parse reg bytes ver hint = .ok p) ∨ parse reg bytes ver hint = .error .format :=
+  parse_fmt reg bytes ver hint
+
+/-- in particular: no panic and no fuel exhaustion -/
+theorem qr_parse_no_panic (reg : Registry) (bytes : List Nat) (ver : Nat) (hint : Hint) :
+    (∀ w, parse reg bytes ver hint ≠ .error (.panic w)) ∧ parse reg bytes ver hint ≠ .error .fuel := by
+  rcases qr_parse_total reg bytes ver hint with ⟨p, h⟩ | h <;> rw [h] <;> exact ⟨fun w => by simp, by simp⟩
+
+-- non-vacuity: a numeric segment "01", a truncated byte segment, an unknown mode nibble, ECI 900
+example : (parse [] [0x10, 0x08, 0x08] 1 .none).map (·.segs) = .ok [.raw [48, 49]] := by decide
+example : parse [] [0x40, 0x31] 1 .none = .error .format := by decide
+example : parse [] [0x60] 1 .none = .error .format := by decide
+example : parse [] [0x78, 0x38, 0x40] 1 .none = .error .format := by decide
+
+end QRParse
 
 end Gzx.Properties.C06
